@@ -75,6 +75,15 @@ pub struct TcpListener { k: usize }
 pub struct TcpStream { k: usize }
 #[verifier::external_body]
 pub struct SocketAddr { k: usize }
+impl TcpStream {
+    /// socket queries / options: they can fail (e.g. the peer has already reset the connection) and do not touch the permits
+    #[verifier::external_body]
+    pub fn peer_addr(&self) -> io::Result<SocketAddr> { unimplemented!() }
+    #[verifier::external_body]
+    pub fn local_addr(&self) -> io::Result<SocketAddr> { unimplemented!() }
+    #[verifier::external_body]
+    pub fn set_nodelay(&self, on: bool) -> io::Result<()> { unimplemented!() }
+}
 impl TcpListener {
     #[verifier::external_body]
     pub async fn accept(&self) -> io::Result<(TcpStream, SocketAddr)> { unimplemented!() }
